@@ -12,27 +12,41 @@ open Spec.X86
 
 /-! ### parser on concrete shapes (64-bit mode) -/
 
-theorem parse_evex_reg (r : Rule) (p0 p1 p2 o mb : BitVec 8) (imm : List (BitVec 8))
+theorem parse_evex_reg (m64 : Bool) (r : Rule) (p0 p1 p2 o mb : BitVec 8) (imm : List (BitVec 8))
+    (h32 : m64 = false → bits p0 6 2 = 3)
     (hs : r.space = 2) (hfw : r.pp &&& 8 = 0) (hmk : r.modKind ≠ 0)
     (h3 : bit p0 3 = false) (h2 : bit p1 2 = true) (hmod : bits mb 6 2 = 3)
     (hlen : imm.length = r.immBytes + r.relBytes) (hmoff : r.moff = false) :
-    parse true r (0x62#8 :: p0 :: p1 :: p2 :: o :: mb :: imm) =
+    parse m64 r (0x62#8 :: p0 :: p1 :: p2 :: o :: mb :: imm) =
       .ok { prefixes := [], vexKind := 4, R := !bit p0 7, X := !bit p0 6, B := !bit p0 5, R' := !bit p0 4, map := bits p0 0 3,
             W := bit p1 7, vvvv := 15 - bits p1 3 4, pp := bits p1 0 2, z := bit p2 7, L := bits p2 5 2, b := bit p2 4,
             V' := !bit p2 3, aaa := bits p2 0 3, opcode := o, modrm := some mb, addr16 := false, imm := imm,
             length := 6 + imm.length } := by
-  simp [parse, takePrefixes, isLegacyPrefix, hs, hfw, hmk, h3, h2, parseModRM, hmod, hlen, hmoff, bind, Except.bind, pure, Except.pure]
-  omega
+  cases m64 with
+  | true =>
+    simp [parse, takePrefixes, isLegacyPrefix, hs, hfw, hmk, h3, h2, parseModRM, hmod, hlen, hmoff, bind, Except.bind, pure, Except.pure]
+    omega
+  | false =>
+    have h32' := h32 rfl
+    simp [parse, h32', takePrefixes, isLegacyPrefix, hs, hfw, hmk, h3, h2, parseModRM, hmod, hlen, hmoff, bind, Except.bind, pure, Except.pure]
+    omega
 
-theorem parse_vex3_reg (r : Rule) (b1 b2 o mb : BitVec 8) (imm : List (BitVec 8))
+theorem parse_vex3_reg (m64 : Bool) (r : Rule) (b1 b2 o mb : BitVec 8) (imm : List (BitVec 8))
+    (h32 : m64 = false → bits b1 6 2 = 3)
     (hs : r.space = 1) (hfw : r.pp &&& 8 = 0) (hmk : r.modKind ≠ 0) (hmod : bits mb 6 2 = 3)
     (hlen : imm.length = r.immBytes + r.relBytes) (hmoff : r.moff = false) :
-    parse true r (0xC4#8 :: b1 :: b2 :: o :: mb :: imm) =
+    parse m64 r (0xC4#8 :: b1 :: b2 :: o :: mb :: imm) =
       .ok { prefixes := [], vexKind := 3, R := !bit b1 7, X := !bit b1 6, B := !bit b1 5, map := bits b1 0 5, W := bit b2 7,
             vvvv := 15 - bits b2 3 4, L := bits b2 2 1, pp := bits b2 0 2, opcode := o, modrm := some mb, addr16 := false, imm := imm,
             length := 5 + imm.length } := by
-  simp [parse, takePrefixes, isLegacyPrefix, hs, hfw, hmk, parseModRM, hmod, hlen, hmoff, bind, Except.bind, pure, Except.pure]
-  omega
+  cases m64 with
+  | true =>
+    simp [parse, takePrefixes, isLegacyPrefix, hs, hfw, hmk, parseModRM, hmod, hlen, hmoff, bind, Except.bind, pure, Except.pure]
+    omega
+  | false =>
+    have h32' := h32 rfl
+    simp [parse, h32', takePrefixes, isLegacyPrefix, hs, hfw, hmk, parseModRM, hmod, hlen, hmoff, bind, Except.bind, pure, Except.pure]
+    omega
 
 theorem parse_xop_reg (r : Rule) (b1 b2 o mb : BitVec 8) (imm : List (BitVec 8))
     (hs : r.space = 3) (hfw : r.pp &&& 8 = 0) (hmk : r.modKind ≠ 0) (hmod : bits mb 6 2 = 3) (hm8 : ¬ bits b1 0 5 < 8)
@@ -44,14 +58,21 @@ theorem parse_xop_reg (r : Rule) (b1 b2 o mb : BitVec 8) (imm : List (BitVec 8))
   simp [parse, takePrefixes, isLegacyPrefix, hs, hfw, hmk, parseModRM, hmod, hlen, hmoff, hm8, bind, Except.bind, pure, Except.pure]
   omega
 
-theorem parse_vex2_reg (r : Rule) (b1 o mb : BitVec 8) (imm : List (BitVec 8))
+theorem parse_vex2_reg (m64 : Bool) (r : Rule) (b1 o mb : BitVec 8) (imm : List (BitVec 8))
+    (h32 : m64 = false → bits b1 6 2 = 3)
     (hs : r.space = 1) (hfw : r.pp &&& 8 = 0) (hmk : r.modKind ≠ 0) (hmod : bits mb 6 2 = 3)
     (hlen : imm.length = r.immBytes + r.relBytes) (hmoff : r.moff = false) :
-    parse true r (0xC5#8 :: b1 :: o :: mb :: imm) =
+    parse m64 r (0xC5#8 :: b1 :: o :: mb :: imm) =
       .ok { prefixes := [], vexKind := 2, R := !bit b1 7, vvvv := 15 - bits b1 3 4, L := bits b1 2 1, pp := bits b1 0 2, map := 1,
             opcode := o, modrm := some mb, addr16 := false, imm := imm, length := 4 + imm.length } := by
-  simp [parse, takePrefixes, isLegacyPrefix, hs, hfw, hmk, parseModRM, hmod, hlen, hmoff, bind, Except.bind, pure, Except.pure]
-  omega
+  cases m64 with
+  | true =>
+    simp [parse, takePrefixes, isLegacyPrefix, hs, hfw, hmk, parseModRM, hmod, hlen, hmoff, bind, Except.bind, pure, Except.pure]
+    omega
+  | false =>
+    have h32' := h32 rfl
+    simp [parse, h32', takePrefixes, isLegacyPrefix, hs, hfw, hmk, parseModRM, hmod, hlen, hmoff, bind, Except.bind, pure, Except.pure]
+    omega
 
 /-! ### Nat-level fields vs bit-vectors -/
 
@@ -127,11 +148,11 @@ def PlainKind (k : RegKind) : Prop := k ≠ .gpbhi ∧ k ≠ .gpb ∧ k ≠ .sre
 /-- shape [reg, vvvv, rm] (+ optional imm8) : all conditions of the monitor hold -/
 theorem vex_rvm_formOk (ctx : Spec.X86.Ctx) (rule : Rule) (p : Parsed) (mb : BitVec 8) (bytes : List (BitVec 8))
     (k0 k1 k2 : RegKind) (f0 f1 f2 : FormOp) (i0 i1 i2 : Nat)
-    (hm64 : ctx.mode64 = true) (hk0 : PlainKind k0) (hk1 : PlainKind k1) (hk2 : PlainKind k2)
+    (hmode : ((if ctx.mode64 then rule.modes &&& 2 else rule.modes &&& 1) != 0) = true) (hk0 : PlainKind k0) (hk1 : PlainKind k1) (hk2 : PlainKind k2)
     (R : VexRule rule 0) (hf0 : f0.role = .reg) (hf1 : f1.role = .vvvv) (hf2 : f2.role = .rm)
     (hal : alignOps rule.oszEff rule.ops [.reg k0 i0, .reg k1 i1, .reg k2 i2] =
            some [(f0, some (.reg k0 i0)), (f1, some (.reg k1 i1)), (f2, some (.reg k2 i2))])
-    (hparse : parse true rule bytes = .ok p) (P : VexParsed rule p mb)
+    (hparse : parse ctx.mode64 rule bytes = .ok p) (P : VexParsed rule p mb)
     (hreg : regNum p.R' p.R (bits mb 3 3) = i0)
     (hvv : regNum p.V' false p.vvvv = i1)
     (hrm : regNum (p.vexKind == 4 && p.X) p.B (bits mb 0 3) = i2) :
@@ -141,11 +162,11 @@ theorem vex_rvm_formOk (ctx : Spec.X86.Ctx) (rule : Rule) (p : Parsed) (mb : Bit
   have hleg : isLegacySpace rule = false := by rcases hs with h | h | h <;> simp [isLegacySpace, h]
   have hs4 : (rule.space == 4) = false := by rcases hs with h | h | h <;> simp [h]
   have hvk0 : (p.vexKind == 0) = false := by rcases hvk with h | h | h | h <;> simp [h]
-  simp only [formOk, conds, hm64, hal, hparse]
+  simp only [formOk, conds, hal, hparse, hmode]
   simp only [allOk_cons, allOk_append, decorConds, headConds, prefixConds, modrmConds, operandConds, opConds, tailConds, hf0, hf1, hf2,
     regConds_plain _ _ _ _ _ hk0, regConds_plain _ _ _ _ _ hk1, regConds_plain _ _ _ _ _ hk2, allOk_nil, memOperandOf, implMemOf, usesVvvv,
     hasBcst, hleg, hri, hmodrm, hpfx, hrex]
-  simp [hmodes, hop, hmap, hpp, hreg, hvv, hrm, hmod, hmr, hmrm, hs4, hvk0, hpp8, ha67]
+  simp [hop, hmap, hpp, hreg, hvv, hrm, hmod, hmr, hmrm, hs4, hvk0, hpp8, ha67]
   have hvk0' : ¬ p.vexKind = 0 := by rcases hvk with h | h | h | h <;> omega
   and_intros
   all_goals first
@@ -170,11 +191,11 @@ theorem vex_rvm_formOk (ctx : Spec.X86.Ctx) (rule : Rule) (p : Parsed) (mb : Bit
 /-- shape [reg, rm]: vvvv must be unused (1111b, V' clear) -/
 theorem vex_rm_formOk (ctx : Spec.X86.Ctx) (rule : Rule) (p : Parsed) (mb : BitVec 8) (bytes : List (BitVec 8))
     (k0 k2 : RegKind) (f0 f2 : FormOp) (i0 i2 : Nat)
-    (hm64 : ctx.mode64 = true) (hk0 : PlainKind k0) (hk2 : PlainKind k2)
+    (hmode : ((if ctx.mode64 then rule.modes &&& 2 else rule.modes &&& 1) != 0) = true) (hk0 : PlainKind k0) (hk2 : PlainKind k2)
     (R : VexRule rule 0) (hf0 : f0.role = .reg) (hf2 : f2.role = .rm)
     (hal : alignOps rule.oszEff rule.ops [.reg k0 i0, .reg k2 i2] =
            some [(f0, some (.reg k0 i0)), (f2, some (.reg k2 i2))])
-    (hparse : parse true rule bytes = .ok p) (P : VexParsed rule p mb)
+    (hparse : parse ctx.mode64 rule bytes = .ok p) (P : VexParsed rule p mb)
     (hreg : regNum p.R' p.R (bits mb 3 3) = i0)
     (hvv : regNum p.V' false p.vvvv = 0)
     (hrm : regNum (p.vexKind == 4 && p.X) p.B (bits mb 0 3) = i2) :
@@ -184,12 +205,12 @@ theorem vex_rm_formOk (ctx : Spec.X86.Ctx) (rule : Rule) (p : Parsed) (mb : BitV
   have hleg : isLegacySpace rule = false := by rcases hs with h | h | h <;> simp [isLegacySpace, h]
   have hs4 : (rule.space == 4) = false := by rcases hs with h | h | h <;> simp [h]
   have hvk0 : (p.vexKind == 0) = false := by rcases hvk with h | h | h | h <;> simp [h]
-  simp only [formOk, conds, hm64, hal, hparse]
+  simp only [formOk, conds, hal, hparse, hmode]
   simp only [allOk_cons, allOk_append, decorConds, headConds, prefixConds, modrmConds, operandConds, opConds, tailConds, hf0, hf2,
     regConds_plain _ _ _ _ _ hk0, regConds_plain _ _ _ _ _ hk2, allOk_nil, memOperandOf, implMemOf, usesVvvv,
     hasBcst, hleg, hri, hmodrm, hpfx, hrex]
   obtain ⟨hv0, hV⟩ := regNum_zero _ _ hvv
-  simp [hmodes, hop, hmap, hpp, hreg, hrm, hmod, hmr, hmrm, hs4, hvk0, hpp8, ha67, hv0, hV]
+  simp [hop, hmap, hpp, hreg, hrm, hmod, hmr, hmrm, hs4, hvk0, hpp8, ha67, hv0, hV]
   have hvk0' : ¬ p.vexKind = 0 := by rcases hvk with h | h | h | h <;> omega
   and_intros
   all_goals first
@@ -214,12 +235,12 @@ theorem vex_rm_formOk (ctx : Spec.X86.Ctx) (rule : Rule) (p : Parsed) (mb : BitV
 /-- shape [reg, vvvv, rm, imm8] -/
 theorem vex_rvmi_formOk (ctx : Spec.X86.Ctx) (rule : Rule) (p : Parsed) (mb : BitVec 8) (bytes : List (BitVec 8))
     (k0 k1 k2 : RegKind) (f0 f1 f2 : FormOp) (i0 i1 i2 : Nat)
-    (hm64 : ctx.mode64 = true) (hk0 : PlainKind k0) (hk1 : PlainKind k1) (hk2 : PlainKind k2)
+    (hmode : ((if ctx.mode64 then rule.modes &&& 2 else rule.modes &&& 1) != 0) = true) (hk0 : PlainKind k0) (hk1 : PlainKind k1) (hk2 : PlainKind k2)
     (R : VexRule rule 1) (f3 : FormOp) (v : BitVec 64) (hf3 : f3.role = .imm) (hib : immBitsOf f3 = 8)
     (himmp : p.imm = [BitVec.ofNat 8 v.toNat]) (hf0 : f0.role = .reg) (hf1 : f1.role = .vvvv) (hf2 : f2.role = .rm)
     (hal : alignOps rule.oszEff rule.ops [.reg k0 i0, .reg k1 i1, .reg k2 i2, .imm v] =
            some [(f0, some (.reg k0 i0)), (f1, some (.reg k1 i1)), (f2, some (.reg k2 i2)), (f3, some (.imm v))])
-    (hparse : parse true rule bytes = .ok p) (P : VexParsed rule p mb)
+    (hparse : parse ctx.mode64 rule bytes = .ok p) (P : VexParsed rule p mb)
     (hreg : regNum p.R' p.R (bits mb 3 3) = i0)
     (hvv : regNum p.V' false p.vvvv = i1)
     (hrm : regNum (p.vexKind == 4 && p.X) p.B (bits mb 0 3) = i2) :
@@ -229,11 +250,11 @@ theorem vex_rvmi_formOk (ctx : Spec.X86.Ctx) (rule : Rule) (p : Parsed) (mb : Bi
   have hleg : isLegacySpace rule = false := by rcases hs with h | h | h <;> simp [isLegacySpace, h]
   have hs4 : (rule.space == 4) = false := by rcases hs with h | h | h <;> simp [h]
   have hvk0 : (p.vexKind == 0) = false := by rcases hvk with h | h | h | h <;> simp [h]
-  simp only [formOk, conds, hm64, hal, hparse]
+  simp only [formOk, conds, hal, hparse, hmode]
   simp only [allOk_cons, allOk_append, decorConds, headConds, prefixConds, modrmConds, operandConds, opConds, tailConds, hf0, hf1, hf2, hf3, hib, himmp, immBytesOf, oszEff_zero rule hosz hs, hrev,
     regConds_plain _ _ _ _ _ hk0, regConds_plain _ _ _ _ _ hk1, regConds_plain _ _ _ _ _ hk2, allOk_nil, memOperandOf, implMemOf, usesVvvv,
     hasBcst, hleg, hri, hmodrm, hpfx, hrex]
-  simp [hmodes, hop, hmap, hpp, hreg, hvv, hrm, hmod, hmr, hmrm, hs4, hvk0, hpp8, ha67]
+  simp [hop, hmap, hpp, hreg, hvv, hrm, hmod, hmr, hmrm, hs4, hvk0, hpp8, ha67]
   have hvk0' : ¬ p.vexKind = 0 := by rcases hvk with h | h | h | h <;> omega
   and_intros
   all_goals first
@@ -258,12 +279,12 @@ theorem vex_rvmi_formOk (ctx : Spec.X86.Ctx) (rule : Rule) (p : Parsed) (mb : Bi
 /-- shape [reg, rm, imm8] -/
 theorem vex_rmi_formOk (ctx : Spec.X86.Ctx) (rule : Rule) (p : Parsed) (mb : BitVec 8) (bytes : List (BitVec 8))
     (k0 k2 : RegKind) (f0 f2 : FormOp) (i0 i2 : Nat)
-    (hm64 : ctx.mode64 = true) (hk0 : PlainKind k0) (hk2 : PlainKind k2)
+    (hmode : ((if ctx.mode64 then rule.modes &&& 2 else rule.modes &&& 1) != 0) = true) (hk0 : PlainKind k0) (hk2 : PlainKind k2)
     (R : VexRule rule 1) (f3 : FormOp) (v : BitVec 64) (hf3 : f3.role = .imm) (hib : immBitsOf f3 = 8)
     (himmp : p.imm = [BitVec.ofNat 8 v.toNat]) (hf0 : f0.role = .reg) (hf2 : f2.role = .rm)
     (hal : alignOps rule.oszEff rule.ops [.reg k0 i0, .reg k2 i2, .imm v] =
            some [(f0, some (.reg k0 i0)), (f2, some (.reg k2 i2)), (f3, some (.imm v))])
-    (hparse : parse true rule bytes = .ok p) (P : VexParsed rule p mb)
+    (hparse : parse ctx.mode64 rule bytes = .ok p) (P : VexParsed rule p mb)
     (hreg : regNum p.R' p.R (bits mb 3 3) = i0)
     (hvv : regNum p.V' false p.vvvv = 0)
     (hrm : regNum (p.vexKind == 4 && p.X) p.B (bits mb 0 3) = i2) :
@@ -273,12 +294,12 @@ theorem vex_rmi_formOk (ctx : Spec.X86.Ctx) (rule : Rule) (p : Parsed) (mb : Bit
   have hleg : isLegacySpace rule = false := by rcases hs with h | h | h <;> simp [isLegacySpace, h]
   have hs4 : (rule.space == 4) = false := by rcases hs with h | h | h <;> simp [h]
   have hvk0 : (p.vexKind == 0) = false := by rcases hvk with h | h | h | h <;> simp [h]
-  simp only [formOk, conds, hm64, hal, hparse]
+  simp only [formOk, conds, hal, hparse, hmode]
   simp only [allOk_cons, allOk_append, decorConds, headConds, prefixConds, modrmConds, operandConds, opConds, tailConds, hf0, hf2, hf3, hib, himmp, immBytesOf, oszEff_zero rule hosz hs, hrev,
     regConds_plain _ _ _ _ _ hk0, regConds_plain _ _ _ _ _ hk2, allOk_nil, memOperandOf, implMemOf, usesVvvv,
     hasBcst, hleg, hri, hmodrm, hpfx, hrex]
   obtain ⟨hv0, hV⟩ := regNum_zero _ _ hvv
-  simp [hmodes, hop, hmap, hpp, hreg, hrm, hmod, hmr, hmrm, hs4, hvk0, hpp8, ha67, hv0, hV]
+  simp [hop, hmap, hpp, hreg, hrm, hmod, hmr, hmrm, hs4, hvk0, hpp8, ha67, hv0, hV]
   have hvk0' : ¬ p.vexKind = 0 := by rcases hvk with h | h | h | h <;> omega
   and_intros
   all_goals first
@@ -299,5 +320,246 @@ theorem vex_rmi_formOk (ctx : Spec.X86.Ctx) (rule : Rule) (p : Parsed) (mb : Bit
        · simp [h4, allOk])
     | exact Or.inl (Or.inr (Or.inr (Or.inl ‹_›)))
     | simp [leBytes, allOk]
+
+/-! ### legacy encoding space -/
+
+
+/-- the single mandatory / operand-size prefix the legacy emitters write (`emit_pp`) -/
+def ppBytes (pp : Nat) : List (BitVec 8) := if pp == 1 then [0x66#8] else if pp == 2 then [0xF3#8] else if pp == 3 then [0xF2#8] else []
+
+theorem isLP_66 : isLegacyPrefix 0x66#8 false = true := by decide
+theorem isLP_F3 : isLegacyPrefix 0xF3#8 false = true := by decide
+theorem isLP_F2 : isLegacyPrefix 0xF2#8 false = true := by decide
+theorem isLP_0F : isLegacyPrefix 0x0F#8 false = false := by decide
+
+/-- bit `i` of an optional REX byte -/
+def rexBit (rex : Option (BitVec 8)) (i : Nat) : Bool := match rex with | some b => bit b i | none => false
+
+/-- legacy register form: [66|F3|F2]? [REX]? escape opcode ModRM(mod=11) imm* (64-bit mode) -/
+theorem parse_legacy_reg (m64 : Bool) (r : Rule) (pp : Nat) (rex : Option (BitVec 8)) (o mb : BitVec 8) (imm : List (BitVec 8))
+    (h32 : m64 = false → rex = none)
+    (hpp : pp < 4) (hs : r.space = 0) (hfw : r.pp &&& 8 = 0) (hmap : r.map < 4) (hmk : r.modKind ≠ 0)
+    (hrex : ∀ b, rex = some b → b.toNat / 16 = 4 ∧ isLegacyPrefix b false = false)
+    (ho : r.map = 0 → isLegacyPrefix o false = false ∧ (m64 = true → rex = none → o.toNat / 16 ≠ 4))
+    (hmod : bits mb 6 2 = 3) (hlen : imm.length = r.immBytes + r.relBytes) (hmoff : r.moff = false) :
+    parse m64 r (ppBytes pp ++ rex.toList ++ legacyEscape r.map ++ [o, mb] ++ imm) =
+      .ok { prefixes := ppBytes pp, rex := rex,
+            W := rexBit rex 3, R := rexBit rex 2, X := rexBit rex 1, B := rexBit rex 0,
+            map := r.map, opcode := o, modrm := some mb, addr16 := false, imm := imm,
+            length := (ppBytes pp).length + rex.toList.length + (legacyEscape r.map).length + 2 + imm.length } := by
+  cases m64 with
+  | true =>
+    have hpp' : pp = 0 ∨ pp = 1 ∨ pp = 2 ∨ pp = 3 := by omega
+    have hmap' : r.map = 0 ∨ r.map = 1 ∨ r.map = 2 ∨ r.map = 3 := by omega
+    have hmk' : (r.modKind != 0) = true := by simpa using hmk
+    cases rex with
+    | none =>
+      rcases hmap' with m | m | m | m
+      · obtain ⟨ho1, ho2⟩ := ho m
+        have ho2' := ho2 rfl rfl
+        rcases hpp' with h | h | h | h <;> subst h <;>
+          simp [parse, takePrefixes, isLP_66, isLP_F3, isLP_F2, isLP_0F, rexBit, ppBytes, legacyEscape, parseModRM, bind, Except.bind, pure, Except.pure, m, hs, hfw, hmk', hmod,
+            hlen, hmoff, ho1, ho2'] <;> omega
+      all_goals
+        rcases hpp' with h | h | h | h <;> subst h <;>
+          simp [parse, takePrefixes, isLP_66, isLP_F3, isLP_F2, isLP_0F, rexBit, ppBytes, legacyEscape, parseModRM, bind, Except.bind, pure, Except.pure, m, hs, hfw, hmk', hmod,
+            hlen, hmoff] <;> omega
+    | some b =>
+      obtain ⟨hb1, hb2⟩ := hrex b rfl
+      rcases hmap' with m | m | m | m
+      all_goals
+        rcases hpp' with h | h | h | h <;> subst h <;>
+          simp [parse, takePrefixes, isLP_66, isLP_F3, isLP_F2, isLP_0F, rexBit, ppBytes, legacyEscape, parseModRM, bind, Except.bind, pure, Except.pure, m, hs, hfw, hmk', hmod,
+            hlen, hmoff, hb1, hb2] <;> omega
+  | false =>
+    have hpp' : pp = 0 ∨ pp = 1 ∨ pp = 2 ∨ pp = 3 := by omega
+    have hmap' : r.map = 0 ∨ r.map = 1 ∨ r.map = 2 ∨ r.map = 3 := by omega
+    have hmk' : (r.modKind != 0) = true := by simpa using hmk
+    cases rex with
+    | none =>
+      rcases hmap' with m | m | m | m
+      · obtain ⟨ho1, ho2⟩ := ho m
+        rcases hpp' with h | h | h | h <;> subst h <;>
+          simp [parse, takePrefixes, isLP_66, isLP_F3, isLP_F2, isLP_0F, rexBit, ppBytes, legacyEscape, parseModRM, bind, Except.bind, pure, Except.pure, m, hs, hfw, hmk', hmod,
+            hlen, hmoff, ho1] <;> omega
+      all_goals
+        rcases hpp' with h | h | h | h <;> subst h <;>
+          simp [parse, takePrefixes, isLP_66, isLP_F3, isLP_F2, isLP_0F, rexBit, ppBytes, legacyEscape, parseModRM, bind, Except.bind, pure, Except.pure, m, hs, hfw, hmk', hmod,
+            hlen, hmoff] <;> omega
+    | some b => exact absurd (h32 rfl) (by simp)
+
+/-- rule side: a legacy-space /r form, `nimm` immediate bytes, whose mandatory / operand-size prefix is `pp` (0 none, 1 66, 2 F3, 3 F2) -/
+structure LegRule (rule : Rule) (nimm pp : Nat) : Prop where
+  hmodes : rule.modes &&& 2 ≠ 0
+  hs : rule.space = 0
+  hpp8 : rule.pp &&& 8 = 0
+  h66 : (rule.pp &&& 1 != 0 || rule.osz == 16) = (pp == 1)
+  hF3 : (rule.pp &&& 2 != 0) = (pp == 2)
+  hF2 : (rule.pp &&& 4 != 0) = (pp == 3)
+  hpplt : pp < 4
+  hri : rule.ri = false
+  hmk : rule.modKind = 1 ∨ rule.modKind = 2
+  hmr : rule.modr = 8
+  hmrm : rule.modrm = 8
+  himm : rule.immBytes = nimm
+  hrel : rule.relBytes = 0
+  hmoff : rule.moff = false
+  ha67 : rule.a67 = false
+  hrev : rule.immRev = false
+
+/-- what the parser returned for a legacy register form -/
+structure LegParsed (rule : Rule) (p : Parsed) (mb : BitVec 8) (pp : Nat) : Prop where
+  hvk : p.vexKind = 0
+  hpfx : p.prefixes = ppBytes pp
+  hmodrm : p.modrm = some mb
+  hmod : bits mb 6 2 = 3
+  hop : p.opcode.toNat = rule.opcode
+  hw : wWant rule = 2 ∨ p.W = (wWant rule == 1)
+  hR' : p.R' = false
+
+theorem count_ppBytes (pp : Nat) (h : pp < 4) :
+    (ppBytes pp).count 0x66#8 = (if pp == 1 then 1 else 0) ∧ (ppBytes pp).count 0xF3#8 = (if pp == 2 then 1 else 0) ∧
+    (ppBytes pp).count 0xF2#8 = (if pp == 3 then 1 else 0) ∧ (ppBytes pp).count 0xF0#8 = 0 ∧ (ppBytes pp).count 0x9B#8 = 0 ∧
+    (ppBytes pp).count 0x67#8 = 0 ∧ (ppBytes pp).filter isSegByte = [] ∧ (ppBytes pp).contains 0x67#8 = false := by
+  have : pp = 0 ∨ pp = 1 ∨ pp = 2 ∨ pp = 3 := by omega
+  rcases this with h | h | h | h <;> subst h <;> decide
+
+/-- legacy shape [reg, rm] (either operand order is handled by the roles of the form) -/
+theorem leg_2reg_formOk (ctx : Spec.X86.Ctx) (rule : Rule) (p : Parsed) (mb : BitVec 8) (bytes : List (BitVec 8)) (pp : Nat)
+    (ka kb : RegKind) (fa fb : FormOp) (ia ib : Nat)
+    (hmode : ((if ctx.mode64 then rule.modes &&& 2 else rule.modes &&& 1) != 0) = true) (hka : PlainKind ka) (hkb : PlainKind kb)
+    (R : LegRule rule 0 pp)
+    (hroles : (fa.role = .reg ∧ fb.role = .rm ∧ regNum false p.R (bits mb 3 3) = ia ∧ regNum false p.B (bits mb 0 3) = ib) ∨
+              (fa.role = .rm ∧ fb.role = .reg ∧ regNum false p.B (bits mb 0 3) = ia ∧ regNum false p.R (bits mb 3 3) = ib))
+    (hal : alignOps rule.oszEff rule.ops [.reg ka ia, .reg kb ib] = some [(fa, some (.reg ka ia)), (fb, some (.reg kb ib))])
+    (hparse : parse ctx.mode64 rule bytes = .ok p) (P : LegParsed rule p mb pp) :
+    formOk ctx rule [.reg ka ia, .reg kb ib] {} bytes = true := by
+  obtain ⟨hvk, hpfx, hmodrm, hmod, hop, hw, hR'⟩ := P
+  obtain ⟨hmodes, hs, hpp8, h66, hF3, hF2, hpplt, hri, hmk, hmr, hmrm, himm, hrel, hmoff, ha67, hrev⟩ := R
+  obtain ⟨c66, cF3, cF2, cF0, c9B, c67, cseg, ccont⟩ := count_ppBytes pp hpplt
+  have hleg : isLegacySpace rule = true := by simp [isLegacySpace, hs]
+  simp only [formOk, conds, hal, hparse, hmode]
+  rcases hroles with ⟨ra, rb, na, nb⟩ | ⟨ra, rb, na, nb⟩
+  all_goals
+    simp only [allOk_cons, allOk_append, decorConds, headConds, prefixConds, modrmConds, operandConds, opConds, tailConds, ra, rb,
+      regConds_plain _ _ _ _ _ hka, regConds_plain _ _ _ _ _ hkb, allOk_nil, memOperandOf, implMemOf, usesVvvv, memDestOf,
+      hasBcst, hleg, hri, hmodrm, hpfx, hvk, c66, cF3, cF2, cF0, c9B, c67, cseg, ccont, h66, hF3, hF2, hR']
+    simp [hop, na, nb, hmod, hmr, hmrm, hs, hpp8, ha67, allOk]
+    exact ⟨⟨hw, by simpa using c66, by simpa using cF3, by simpa using cF2, cF0, c9B, by omega, by simpa using ccont⟩,
+      by rcases hmk with h | h <;> omega⟩
+
+/-- legacy shape [reg, rm, imm8] -/
+theorem leg_2reg_imm_formOk (ctx : Spec.X86.Ctx) (rule : Rule) (p : Parsed) (mb : BitVec 8) (bytes : List (BitVec 8)) (pp : Nat)
+    (ka kb : RegKind) (fa fb : FormOp) (ia ib : Nat)
+    (hmode : ((if ctx.mode64 then rule.modes &&& 2 else rule.modes &&& 1) != 0) = true) (hka : PlainKind ka) (hkb : PlainKind kb)
+    (R : LegRule rule 1 pp) (f3 : FormOp) (v : BitVec 64) (hf3 : f3.role = .imm) (hib : immBitsOf f3 = 8) (hsg : (immSignOf f3 == 1) = false)
+    (himmp : p.imm = [BitVec.ofNat 8 v.toNat])
+    (hroles : (fa.role = .reg ∧ fb.role = .rm ∧ regNum false p.R (bits mb 3 3) = ia ∧ regNum false p.B (bits mb 0 3) = ib) ∨
+              (fa.role = .rm ∧ fb.role = .reg ∧ regNum false p.B (bits mb 0 3) = ia ∧ regNum false p.R (bits mb 3 3) = ib))
+    (hal : alignOps rule.oszEff rule.ops [.reg ka ia, .reg kb ib, .imm v] = some [(fa, some (.reg ka ia)), (fb, some (.reg kb ib)), (f3, some (.imm v))])
+    (hparse : parse ctx.mode64 rule bytes = .ok p) (P : LegParsed rule p mb pp) :
+    formOk ctx rule [.reg ka ia, .reg kb ib, .imm v] {} bytes = true := by
+  obtain ⟨hvk, hpfx, hmodrm, hmod, hop, hw, hR'⟩ := P
+  obtain ⟨hmodes, hs, hpp8, h66, hF3, hF2, hpplt, hri, hmk, hmr, hmrm, himm, hrel, hmoff, ha67, hrev⟩ := R
+  obtain ⟨c66, cF3, cF2, cF0, c9B, c67, cseg, ccont⟩ := count_ppBytes pp hpplt
+  have hleg : isLegacySpace rule = true := by simp [isLegacySpace, hs]
+  simp only [formOk, conds, hal, hparse, hmode]
+  rcases hroles with ⟨ra, rb, na, nb⟩ | ⟨ra, rb, na, nb⟩
+  all_goals
+    simp only [allOk_cons, allOk_append, decorConds, headConds, prefixConds, modrmConds, operandConds, opConds, tailConds, ra, rb, hf3, hib, hsg, himmp, immBytesOf, hrev, Bool.false_and, Bool.false_eq_true, ↓reduceIte,
+      regConds_plain _ _ _ _ _ hka, regConds_plain _ _ _ _ _ hkb, allOk_nil, memOperandOf, implMemOf, usesVvvv, memDestOf,
+      hasBcst, hleg, hri, hmodrm, hpfx, hvk, c66, cF3, cF2, cF0, c9B, c67, cseg, ccont, h66, hF3, hF2, hR']
+    simp [hop, na, nb, hmod, hmr, hmrm, hs, hpp8, ha67, allOk, leBytes]
+    exact ⟨⟨hw, by simpa using c66, by simpa using cF3, by simpa using cF2, cF0, c9B, by omega, by simpa using ccont⟩,
+      by rcases hmk with h | h <;> omega⟩
+
+
+
+/-- legacy form without ModRM: [66|F3|F2]? [REX]? escape opcode (64-bit mode) -/
+theorem parse_legacy_op (r : Rule) (pp : Nat) (rex : Option (BitVec 8)) (o : BitVec 8)
+    (hpp : pp < 4) (hs : r.space = 0) (hfw : r.pp &&& 8 = 0) (hmap : r.map < 4) (hmk : r.modKind = 0)
+    (hrex : ∀ b, rex = some b → b.toNat / 16 = 4 ∧ isLegacyPrefix b false = false)
+    (ho : r.map = 0 → isLegacyPrefix o false = false ∧ (rex = none → o.toNat / 16 ≠ 4))
+    (himm : r.immBytes = 0) (hrel : r.relBytes = 0) (hmoff : r.moff = false) :
+    parse true r (ppBytes pp ++ rex.toList ++ legacyEscape r.map ++ [o]) =
+      .ok { prefixes := ppBytes pp, rex := rex, W := rexBit rex 3, R := rexBit rex 2, X := rexBit rex 1, B := rexBit rex 0,
+            map := r.map, opcode := o, imm := [],
+            length := (ppBytes pp).length + rex.toList.length + (legacyEscape r.map).length + 1 } := by
+  have hpp' : pp = 0 ∨ pp = 1 ∨ pp = 2 ∨ pp = 3 := by omega
+  have hmap' : r.map = 0 ∨ r.map = 1 ∨ r.map = 2 ∨ r.map = 3 := by omega
+  cases rex with
+  | none =>
+    rcases hmap' with m | m | m | m
+    · obtain ⟨ho1, ho2⟩ := ho m
+      have ho2' := ho2 rfl
+      rcases hpp' with h | h | h | h <;> subst h <;>
+        simp [parse, takePrefixes, isLP_66, isLP_F3, isLP_F2, isLP_0F, rexBit, ppBytes, legacyEscape, bind, Except.bind, pure, Except.pure, m, hs, hfw, hmk,
+          himm, hrel, hmoff, ho1, ho2']
+    all_goals
+      rcases hpp' with h | h | h | h <;> subst h <;>
+        simp [parse, takePrefixes, isLP_66, isLP_F3, isLP_F2, isLP_0F, rexBit, ppBytes, legacyEscape, bind, Except.bind, pure, Except.pure, m, hs, hfw, hmk,
+          himm, hrel, hmoff]
+  | some b =>
+    obtain ⟨hb1, hb2⟩ := hrex b rfl
+    rcases hmap' with m | m | m | m
+    all_goals
+      rcases hpp' with h | h | h | h <;> subst h <;>
+        simp [parse, takePrefixes, isLP_66, isLP_F3, isLP_F2, isLP_0F, rexBit, ppBytes, legacyEscape, bind, Except.bind, pure, Except.pure, m, hs, hfw, hmk,
+          himm, hrel, hmoff, hb1, hb2]
+
+theorem alignOps_nil (osz : Nat) (ops : List FormOp) (h : ops.all (·.implicit) = true) :
+    alignOps osz ops [] = some (ops.map (fun f => (f, Option.none))) := by
+  induction ops with
+  | nil => rfl
+  | cons f fs ih =>
+    simp only [List.all_cons, Bool.and_eq_true] at h
+    simp [alignOps, h.1, ih h.2]
+
+theorem operandConds_none (c : Spec.X86.Ctx) (r : Rule) (p : Parsed) (n : Nat) (ops : List FormOp) :
+    operandConds c r p n (ops.map (fun f => (f, Option.none))) = [] := by
+  induction ops with
+  | nil => rfl
+  | cons f fs ih => simp [operandConds, ih]
+
+theorem implMemOf_none (ops : List FormOp) : implMemOf (ops.map (fun f => (f, Option.none))) = Option.none := by
+  unfold implMemOf
+  generalize (Option.none : Option MemOp) = acc
+  induction ops generalizing acc with
+  | nil => rfl
+  | cons f fs ih => simp only [List.map_cons, List.foldl_cons]; exact ih acc
+
+theorem usesVvvv_none (ops : List FormOp) : usesVvvv (ops.map (fun f => (f, Option.none))) = false := by
+  induction ops with
+  | nil => rfl
+  | cons f fs ih => simp_all [usesVvvv]
+
+theorem memDestOf_none (ops : List FormOp) : memDestOf (ops.map (fun f => (f, Option.none))) = false := by
+  unfold memDestOf
+  have : (ops.map (fun f => (f, (Option.none : Option Operand)))).find? (fun fo => fo.2.isSome) = Option.none := by
+    induction ops with
+    | nil => rfl
+    | cons f fs ih => simp [List.find?, ih]
+  rw [this]
+
+
+/-- legacy form without explicit operands (class X86Op): every condition of the monitor holds -/
+theorem leg_nullary_formOk (ctx : Spec.X86.Ctx) (rule : Rule) (p : Parsed) (bytes : List (BitVec 8)) (pp : Nat)
+    (hmode : ((if ctx.mode64 then rule.modes &&& 2 else rule.modes &&& 1) != 0) = true)
+    (hs : rule.space = 0) (hpp8 : rule.pp &&& 8 = 0)
+    (h66 : (rule.pp &&& 1 != 0 || rule.osz == 16) = (pp == 1)) (hF3 : (rule.pp &&& 2 != 0) = (pp == 2)) (hF2 : (rule.pp &&& 4 != 0) = (pp == 3))
+    (hpplt : pp < 4) (hri : rule.ri = false) (ha67 : rule.a67 = false)
+    (himpl : rule.ops.all (·.implicit) = true)
+    (hparse : parse ctx.mode64 rule bytes = .ok p)
+    (hvk : p.vexKind = 0) (hpfx : p.prefixes = ppBytes pp) (hmodrm : p.modrm = Option.none) (hop : p.opcode.toNat = rule.opcode)
+    (hw : wWant rule = 2 ∨ p.W = (wWant rule == 1)) :
+    formOk ctx rule [] {} bytes = true := by
+  obtain ⟨c66, cF3, cF2, cF0, c9B, c67, cseg, ccont⟩ := count_ppBytes pp hpplt
+  have hleg : isLegacySpace rule = true := by simp [isLegacySpace, hs]
+  simp only [formOk, conds, alignOps_nil _ _ himpl, hparse, hmode]
+  simp only [allOk_cons, allOk_append, decorConds, headConds, prefixConds, modrmConds, operandConds_none, tailConds,
+    allOk_nil, memOperandOf, implMemOf_none, usesVvvv_none, memDestOf_none, hasBcst, hleg, hri, hmodrm, hpfx, hvk, c66, cF3, cF2, cF0, c9B, c67,
+    cseg, ccont, h66, hF3, hF2, List.foldl]
+  simp [hop, hs, hpp8, ha67, allOk]
+  exact ⟨hw, by simpa using c66, by simpa using cF3, by simpa using cF2, cF0, c9B, by omega, by simpa using ccont⟩
 
 end AsmjitVerif.Lemmas.X86Parse
